@@ -33,6 +33,7 @@ structure XType where
   hasAny : Bool
   requiredChoice : Bool   -- the own content model contains a choice group with minOccurs ≥ 1
   interleaved : Bool      -- … a repeated choice over a sequence group (cannot be written member-grouped)
+  allGroup : Bool         -- the own content model is an `xs:all` group (any order, each particle at most once)
 deriving Repr, Inhabited
 
 abbrev Xsd := List XType
@@ -207,15 +208,25 @@ def fullElems (X : Xsd) : Nat → Nat → List XElem
     | none => []
     | some x => (match x.base with | some b => fullElems X f b | none => []) ++ x.elems
 
-/-- the whole content model of the type is a sequence of element particles (no choice, no wildcard) along the
-    extension chain; `all` groups are accepted too (member-grouped export writes each at most once, in order) -/
+/-- the whole content model of the type is a sequence of element particles (no choice, no wildcard, no `all` group)
+    along the extension chain: `matchSeq` is then exactly the schema's content model -/
 def seqShaped (X : Xsd) : Nat → Nat → Bool
   | 0, _ => false
   | f+1, c =>
     match findType X c with
     | none => false
-    | some x => !x.hasAny && x.elems.all (fun e => !e.inChoice)
+    | some x => !x.hasAny && !x.allGroup && x.elems.all (fun e => !e.inChoice)
                 && (match x.base with | some b => seqShaped X f b | none => true)
+
+/-- like `seqShaped` but `all` groups allowed: the sequence matcher is then only a SUFFICIENT condition
+    (an `all` group also accepts the other orders) -/
+def seqOrAllShaped (X : Xsd) : Nat → Nat → Bool
+  | 0, _ => false
+  | f+1, c =>
+    match findType X c with
+    | none => false
+    | some x => !x.hasAny && x.elems.all (fun e => !e.inChoice)
+                && (match x.base with | some b => seqOrAllShaped X f b | none => true)
 
 /-- every class writes its children (inherited ones first) under the tags and in the order of the schema's
     particles, and those tags are pairwise distinct -/
